@@ -204,7 +204,13 @@ fn run_history(ctx: &Ctx, hid: u64, st: &mut Stats) {
     if via_setter {
         m.emu.set_fast_load(true);
     }
-    m.emu.load_tape(Tape::Tap(mem_asset(img.clone()))).expect("load_tape");
+    // the image reaches the deck through a whole-buffer asset or one with short reads (1, 2, 3, 100,
+    // 256 bytes per read): which one is a function of the history number
+    let asset = match hid % 6 {
+        0 | 1 => mem_asset(img.clone()),
+        k => crate::host::DynAsset(Box::new(crate::host::ShortRead::new(img.clone(), [1usize, 3, 100, 256][(k - 2) as usize]))),
+    };
+    m.emu.load_tape(Tape::Tap(asset)).expect("load_tape");
     // 128K in "48 BASIC" state: paging locked with ROM 1 selected; later writes to 0x7FFD are ignored
     // by the machine and change nothing about which ROM the loader runs from
     let locked128 = is128 && rng.chance(1, 3);
